@@ -34,6 +34,7 @@ FIXES = {  # subject prefix -> properties whose check must fire when the fix is 
     "fix: add_callbacks": ["C05"],
     "fix: order()": ["C06"],
     "fix: read_text without": ["C50"],
+    "fix: store names": ["C29"],
 }
 
 
